@@ -77,7 +77,7 @@ func makeFeatures(list []interface{}) gts.FeatureSlice {
 				hasLabel = true
 			}
 		}
-		if l := asStr(m["label"]); l != "" && !hasLabel {
+		if l := asStr(m["label"]); l != "" && !hasLabel && !asBool(m["nolabel"]) {
 			props.Add("label", l)
 		}
 		for _, q := range asList(m["props"]) {
@@ -140,7 +140,7 @@ func makeSeq(m J) gts.Sequence {
 		tbl = append(tbl, ff...)
 		sharedTables[name] = tbl
 		ff = tbl[start : start+len(ff)]
-	case "spare":
+	case "spare", "spareparsed":
 		q := make([]byte, len(p), len(p)+64)
 		copy(q, p)
 		p = q
@@ -178,7 +178,7 @@ func makeSeq(m J) gts.Sequence {
 				fields.References = append(fields.References, seqio.Reference{Number: i + 1, Info: info, Authors: "A,B.", Title: "T", Journal: "J"})
 			}
 		}
-		if asStr(m["store"]) == "parsedorigin" {
+		if asStr(m["store"]) == "parsedorigin" || asStr(m["store"]) == "spareparsed" {
 			return seqio.GenBank{Fields: fields, Table: ff, Origin: &seqio.Origin{Buffer: p, Parsed: true}}
 		}
 		return seqio.GenBank{Fields: fields, Table: ff, Origin: seqio.NewOrigin(p)}
@@ -200,6 +200,12 @@ func propsToJSON(props gts.Props) []interface{} {
 func labelOf(f gts.Feature) string {
 	if vv := f.Props.Get("label"); len(vv) > 0 {
 		return vv[0]
+	}
+	// a feature without any qualifier value is identified by a value-less marker qualifier "t<j>"
+	for _, row := range f.Props {
+		if len(row) == 1 && strings.HasPrefix(row[0], "t") {
+			return row[0]
+		}
 	}
 	return ""
 }
@@ -473,6 +479,17 @@ func (r *seqRunner) runCaseMode(c J, caseID string, shared bool) {
 	for _, x := range asList(c["recs"]) {
 		m := x.(map[string]interface{})
 		name := asStr(m["name"])
+		if r.shared && !r.pure && asStr(m["store"]) == "" {
+			// values shared between the calls live in buffers with spare capacity (as the results of
+			// append or of a parser usually do)
+			m2 := J{}
+			for k, v := range m {
+				m2[k] = v
+			}
+			// (a GenBank record holds them as a parsed ORIGIN, so Bytes() is the buffer itself)
+			m2["store"] = "spareparsed"
+			m = m2
+		}
 		seq := makeSeq(m)
 		r.recs[name] = seq
 		r.order = append(r.order, name)
